@@ -80,7 +80,7 @@ def run_monitored(blk, sched, mon, ctx, tag):
             tr.append(new); prev = new; continue
         if msg and viol is None:
             viol = {'what': '%s violates C16: %s' % (blk.name, msg), 'block': blk.name, 'W': getattr(blk, 'W', None), 'DW': blk.DW,
-                    'interface_options': getattr(blk, 'opts', {}),
+                    'interface_options': getattr(blk, 'opts', {}), 'placement(top | nested | staged = simulated before the adapter was added | staged_nested)': getattr(blk, 'place', 'top'),
                     'inputs': ctx_inputs(blk), 'schedule': [list(x) for x in sched[:k + 1]], 'cycle': k,
                     'outputs_before': prev, 'outputs_after': new, 'source': tag}
         tr.append(new); prev = new
@@ -105,7 +105,11 @@ def random_sweep(ctx, n_sched, n_cycles, with_coq, n_coq=10 ** 9):
             kind = kinds[(k // len(WIDTHS) + k) % len(kinds)]
             # the first round of widths uses the plain interface, later rounds draw its optional signals (TID/TDEST/TUSER/TSTRB/...)
             opts = B.draw_opts(rng, W, cls is B.A2R) if k >= len(WIDTHS) else {}
+            will_dump = with_coq and k < (4 if ctx.quick else 2 * len(WIDTHS))
+            if not will_dump:       # construction histories: nested containers, and containers that were simulated before the adapter was added to them
+                opts = dict(opts); opts['_place'] = B.PLACES[(k + (cls is B.R2A)) % len(B.PLACES)]
             blk = build_block(ctx, cls, W, DW, opts)
+            ctx.count(('place', blk.name, blk.place))
             blk.noise = random.Random(rng.getrandbits(32))
             n = rng.randint(n_cycles // 2, n_cycles)
             sched = B.a2r_schedule(rng, DW, n, kind) if cls is B.A2R else B.r2a_schedule(rng, W, n, kind)
@@ -595,7 +599,9 @@ def replay(rp):
         print(('REPRODUCED: ' + viol['what']) if viol else 'not reproduced'); return 1 if viol else 0
     if name not in ('Axi2Reg', 'Reg2Axi', 'Axi2Clk') or not sched:
         print(json.dumps(rp, indent=1)[:3000]); return 0
-    opts = rp.get('interface_options') or {}
+    opts = dict(rp.get('interface_options') or {})
+    for k, v in rp.items():
+        if k.startswith('placement'): opts['_place'] = v
     if name == 'Axi2Reg': blk, mon = B.A2R(rp['W'], rp['DW'], opts), B.A2RMonitor(rp['W'])
     elif name == 'Reg2Axi': blk, mon = B.R2A(rp['W'], rp['DW'], opts), B.R2AMonitor(rp['W'], rp['DW'])
     else: blk, mon = B.A2C(rp.get('DW') or 64), B.A2CMonitor()
